@@ -55,6 +55,9 @@ CHECKS = {
  "C20": dict(cat="exploration", tech="capturing logging.Logger with a substring oracle over every record and argument, control run with an empty password, over successful and failing sessions",
    text="PRNG passwords from nine classes (spaces, format verbs, leading colon, 200 bytes, starting with PASS, containing the mask) on clients with/without negotiation, SASL, tracking, over successful, dial-refused, write-error, EOF-during-registration and reconnecting sessions; no record may contain the password and a masked PASS record must exist whenever PASS reached the wire. Held on the sessions explored.",
    note="Trusted: the capturing logger sees every record because logging is package-global; passwords occurring in the control log are skipped as trivial.", ref="§4 C20"),
+ "C04": dict(cat="exploration", tech="multiset reference model with snapshot-at-dispatch semantics compared with per-handler invocation counters at sync markers; must/may classification from call/return ticks under concurrent mutation; dead-state proof; race detector on hSet/hNode",
+   text="PRNG histories of registrations, removals and events over 4 names x 3 letter-case variants x both sets, with mutations from inside running handlers (self, first/middle/last/only sibling, same/other name and case); every event's invocation multiset must equal the model's snapshot, in-handler changes must leave the current event's siblings alone and apply later; in a concurrent phase 8 goroutines mutate while events flow and only outcomes fixed by the statement (registered/removed before the event's bytes were handed over) are judged. Held on the histories and interleavings explored.",
+   note="Trusted: the background sentinel pins the start of background dispatch; ticks from one atomic clock around every call.", ref="§4 C04"),
 }
 
 NOT_BUILT = "check not built yet in this round (planned, see DESIGN.md §4)"
